@@ -9,8 +9,9 @@ namespace PS
 /-- who contributed a formula (used for C19's tracking map and to localise mismatches) -/
 inductive Owner where
   | task (n : String)
+  | req (t : String)          -- requirement formulas of task t
   | worker (n : String)
-  | constr (id : Nat)
+  | constr (id : Nat) (cls : String)
   | indicator (id : Nat)
   | work (t : String)
   | buffer (n : String)
@@ -21,8 +22,9 @@ inductive Owner where
 
 def Owner.print : Owner → String
   | .task n => "task:" ++ n
+  | .req t => "req:" ++ t
   | .worker n => "worker:" ++ n
-  | .constr i => "constr:" ++ toString i
+  | .constr i cls => "constr:" ++ toString i ++ ":" ++ cls
   | .indicator i => "indicator:" ++ toString i
   | .work t => "work:" ++ t
   | .buffer n => "buffer:" ++ n
@@ -157,16 +159,28 @@ def objectiveFmls (cfg : Config) (st : State) : List Fml :=
 
 /-- the assertion list of `initialize`, with owners -/
 def initializeO (cfg : Config) (st : State) : List (Owner × Fml) :=
-  (st.tasks.flatMap (fun t => (st.taskAsserts t ++ [t.horizonFml]).map (fun f => (Owner.task t.name, f)))) ++
+  (st.tasks.flatMap (fun t =>
+      t.initAsserts.map (fun f => (Owner.task t.name, f)) ++
+      ((st.eventsOf t.name).flatMap (·.fmls t)).map (fun f => (Owner.req t.name, f)) ++
+      [(Owner.task t.name, t.horizonFml)])) ++
   (st.workers.flatMap (fun w => (noOverlapPairs w.name (st.busyOf w.name)).map (fun f => (Owner.worker w.name, f)))) ++
-  ((st.constrs.filter (fun c => !c.operand)).flatMap (fun c => c.asserts.map (fun f => (Owner.constr c.id, f)))) ++
+  ((st.constrs.filter (fun c => !c.operand)).flatMap (fun c => c.asserts.map (fun f => (Owner.constr c.id c.cls, f)))) ++
   (st.indicators.flatMap (fun i => i.asserts.map (fun f => (Owner.indicator i.id, f)))) ++
   (st.tasks.flatMap (fun t => (workAmount st t).map (fun f => (Owner.work t.name, f)))) ++
   (st.buffers.flatMap (fun b => (bufferFmls st b).map (fun f => (Owner.buffer b.name, f)))) ++
   (st.problemAsserts.map (fun f => (Owner.problem, f))) ++
   ((objectiveFmls cfg st).map (fun f => (Owner.objective, f)))
 
-/-- `solver._solver.assertions()` after `initialize()` (non-debug) -/
-def initFmls (cfg : Config) (st : State) : List Fml := (initializeO cfg st).map (·.2)
+/-- `solver._solver.assertions()` after `initialize()` (non-debug): the same list without owners
+    (`initializeO_fmls` in PS/Proofs/InitMem.lean proves `(initializeO cfg st).map (·.2) = initFmls cfg st`) -/
+def initFmls (cfg : Config) (st : State) : List Fml :=
+  (st.tasks.flatMap (fun t => st.taskAsserts t ++ [t.horizonFml])) ++
+  (st.workers.flatMap (fun w => noOverlapPairs w.name (st.busyOf w.name))) ++
+  ((st.constrs.filter (fun c => !c.operand)).flatMap (fun c => c.asserts)) ++
+  (st.indicators.flatMap (fun i => i.asserts)) ++
+  (st.tasks.flatMap (fun t => workAmount st t)) ++
+  (st.buffers.flatMap (fun b => bufferFmls st b)) ++
+  st.problemAsserts ++
+  objectiveFmls cfg st
 
 end PS
